@@ -31,19 +31,21 @@ pub struct QCfg {
     pub abstract_idx: bool,
     /// Arm the store tracer on the descriptor/driver area for the checked step (C02, C07).
     pub trace: bool,
+    /// Use a reduced set of submission shapes (deeper histories at the same cost).
+    pub reduced: bool,
 }
 
 impl QCfg {
     pub fn label<const N: usize>(&self) -> String {
         format!(
-            "qcore:N={},indirect={},event_idx={},ap={},legacy={},off={},nops={},abs={},trace={}",
-            N, self.indirect as u8, self.event_idx as u8, self.ap as u8, self.legacy as u8, self.start_off, self.notify_ops as u8, self.abstract_idx as u8, self.trace as u8
+            "qcore:N={},indirect={},event_idx={},ap={},legacy={},off={},nops={},abs={},trace={},rs={}",
+            N, self.indirect as u8, self.event_idx as u8, self.ap as u8, self.legacy as u8, self.start_off, self.notify_ops as u8, self.abstract_idx as u8, self.trace as u8, self.reduced as u8
         )
     }
     pub fn parse(s: &str) -> Option<(usize, QCfg)> {
         let s = s.strip_prefix("qcore:")?;
         let mut n = 0usize;
-        let mut c = QCfg { indirect: false, event_idx: false, ap: false, legacy: false, start_off: 0, notify_ops: false, abstract_idx: false, trace: false };
+        let mut c = QCfg { indirect: false, event_idx: false, ap: false, legacy: false, start_off: 0, notify_ops: false, abstract_idx: false, trace: false, reduced: false };
         for kv in s.split(',') {
             let (k, v) = kv.split_once('=')?;
             let v: u64 = v.parse().ok()?;
@@ -57,6 +59,7 @@ impl QCfg {
                 "nops" => c.notify_ops = v != 0,
                 "abs" => c.abstract_idx = v != 0,
                 "trace" => c.trace = v != 0,
+                "rs" => c.reduced = v != 0,
                 _ => return None,
             }
         }
@@ -72,6 +75,16 @@ pub const A_POP_WRONG_FREE: u16 = 202;
 pub const A_POP_EMPTY: u16 = 203;
 pub const A_NOTIFY_OFF: u16 = 210;
 pub const A_NOTIFY_ON: u16 = 211;
+
+pub fn shapes_for_cfg(n: usize, reduced: bool) -> Vec<(usize, usize)> {
+    if !reduced {
+        return shapes_for(n);
+    }
+    let mut v = vec![(0, 0), (1, 0), (0, 1), (1, 1), (n / 2, n - n / 2), (n, 1)];
+    v.sort();
+    v.dedup();
+    v
+}
 
 pub fn shapes_for(n: usize) -> Vec<(usize, usize)> {
     let mut v = vec![(0, 0)];
@@ -128,9 +141,9 @@ pub struct World<const N: usize> {
     pub refq: RefQueue,
     outs: Vec<Out>,
     /// Completions written by the device and not yet consumed: tokens in used-ring order.
-    fifo: std::collections::VecDeque<(u16, u32)>,
+    pub fifo: std::collections::VecDeque<(u16, u32)>,
     /// Chains the device has fetched and not completed, in fetch order (tokens).
-    inflight: Vec<u16>,
+    pub inflight: Vec<u16>,
     pops: u16,
     notify_setting: u16,
     adds: u32,
@@ -351,7 +364,7 @@ impl<const N: usize> World<N> {
 
     pub fn enabled(&self) -> Vec<u16> {
         let mut v = vec![];
-        for (i, _) in shapes_for(N).iter().enumerate() {
+        for (i, _) in shapes_for_cfg(N, self.cfg.reduced).iter().enumerate() {
             v.push(A_ADD0 + i as u16);
         }
         for j in 0..self.inflight.len() {
@@ -387,9 +400,13 @@ impl<const N: usize> World<N> {
     }
 
     pub fn describe(a: u16) -> String {
+        Self::describe_with(a, false)
+    }
+
+    pub fn describe_with(a: u16, reduced: bool) -> String {
         match a {
             x if x < A_COMPLETE0 => {
-                let s = shapes_for(N);
+                let s = shapes_for_cfg(N, reduced);
                 match s.get(x as usize) {
                     Some((i, o)) => format!("add({} readable, {} writable)", i, o),
                     None => format!("add(shape {}?)", x),
@@ -408,7 +425,7 @@ impl<const N: usize> World<N> {
 
     /// Applies one action; `check` enables the oracles (the last step of a history).
     pub fn step(&mut self, a: u16, check: bool) {
-        tlog!("step: {}", Self::describe(a));
+        tlog!("step: {}", Self::describe_with(a, self.cfg.reduced));
         match a {
             x if x < A_COMPLETE0 => self.do_add(x as usize, check),
             x if x < A_POP_RIGHT => self.do_complete((x - A_COMPLETE0) as usize, check),
@@ -449,7 +466,7 @@ impl<const N: usize> World<N> {
     }
 
     fn do_add(&mut self, shape: usize, check: bool) {
-        let shapes = shapes_for(N);
+        let shapes = shapes_for_cfg(N, self.cfg.reduced);
         let (ni, no) = shapes[shape];
         let n = ni + no;
         let held = self.held();
@@ -1005,6 +1022,83 @@ impl<const N: usize> BfsModel for QModel<N> {
         BfsStep { key, enabled }
     }
     fn describe(&self, action: u16) -> String {
-        World::<N>::describe(action)
+        World::<N>::describe_with(action, self.cfg.reduced)
     }
+}
+
+/// One long linear history on the real queue (no re-execution): `cycles` rounds of submissions
+/// with rotating shapes, device completions in rotating orders and polls, every step checked.
+/// Returns the number of steps executed. Used to cross the 16-bit index wrap for real.
+pub fn linear_run<const N: usize>(cfg: QCfg, cycles: usize) -> u64 {
+    let mut w = match World::<N>::new(cfg) {
+        Ok(w) => w,
+        Err(e) => {
+            viol("C06", "queue-creation", e);
+            return 0;
+        }
+    };
+    let shapes = shapes_for(N);
+    let mut steps = 0u64;
+    let mut r = 0usize;
+    for c in 0..cycles {
+        // Fill: up to three submissions of rotating shapes (refusals included).
+        for k in 0..3 {
+            let s = (c * 7 + k * 3) % shapes.len();
+            w.step(A_ADD0 + s as u16, true);
+            steps += 1;
+        }
+        // A wrong-token / empty poll now and then.
+        if c % 5 == 0 {
+            let en = w.enabled();
+            if en.contains(&A_POP_EMPTY) {
+                w.step(A_POP_EMPTY, true);
+                steps += 1;
+            }
+        }
+        // The device completes everything in a rotating order.
+        while !w.inflight.is_empty() {
+            r = r.wrapping_add(c + 1);
+            let j = r % w.inflight.len();
+            w.step(A_COMPLETE0 + j as u16, true);
+            steps += 1;
+        }
+        if c % 3 == 0 && w.enabled().contains(&A_POP_WRONG_OUT) {
+            w.step(A_POP_WRONG_OUT, true);
+            steps += 1;
+        }
+        while !w.fifo.is_empty() {
+            w.step(A_POP_RIGHT, true);
+            steps += 1;
+        }
+        if crate::engine::chooser::has_violation() {
+            break;
+        }
+    }
+    w.teardown();
+    steps
+}
+
+/// The warp hook is a faithful shortcut: `k` real single-buffer cycles from a fresh queue end in
+/// the same private state and device-visible driver memory as `verif_warp(k mod 2^16)`.
+pub fn warp_faithfulness<const N: usize>(cfg: QCfg, k: usize) -> Result<(), String> {
+    let mut a = World::<N>::new(QCfg { start_off: 0, ..cfg })?;
+    for _ in 0..k {
+        // add(1 readable) / complete / pop, all unchecked for speed.
+        let shape = shapes_for(N).iter().position(|s| *s == (1, 0)).unwrap();
+        a.step(A_ADD0 + shape as u16, false);
+        a.step(A_COMPLETE0, false);
+        a.step(A_POP_RIGHT, false);
+    }
+    let b = World::<N>::new(QCfg { start_off: (k % 65536) as u16, ..cfg })?;
+    let (sa, sb) = (a.snap(), b.snap());
+    let r = if sa.privs != sb.privs {
+        Err(format!("private state after {} real cycles {:?} differs from verif_warp({}) {:?}", k, sa.privs, k % 65536, sb.privs))
+    } else if sa.avail[..4] != sb.avail[..4] || sa.avail[4 + 2 * N..] != sb.avail[4 + 2 * N..] {
+        Err(format!("available ring header/used_event after {} real cycles {:?} differs from the warped queue {:?}", k, sa.avail, sb.avail))
+    } else {
+        Ok(())
+    };
+    a.teardown();
+    b.teardown();
+    r
 }
